@@ -3,7 +3,7 @@ from vlib import Rng, all_partitions
 import sockgen as G
 
 RULE = ("family proxy: scripted upstream responses: status codes 99..600, reasons (incl. empty / multi-word), header multisets with "
-        "repeated names, bodies 0..40 bytes (multi-KiB in thorough), segmentations of the upstream stream incl. all partitions of short "
+        "repeated names, bodies 0..40 bytes (multi-KiB in thorough) incl. binary bodies with NUL bytes arriving with the end of the head, segmentations of the upstream stream incl. all partitions of short "
         "heads and of the head/body boundary; faults: refused, close after k bytes for every k in the head, close mid-body, unparsable "
         "heads; non-trivial = distinct case")
 ASSUMPTIONS = ["upstream header values are CR/LF-free and already trimmed (what a server sends)"]
@@ -57,6 +57,14 @@ def cases(tier, seed, ctx=None):
         else:
             ops = [[0, stream[:headlen + 2]], [0, stream[headlen + 2:]], [1]]
         yield ("proxy", [REQ, [], 0, ops, 0, env, [13]], "mode%d" % mode)
+    # binary bodies (NUL bytes at the start, in the middle, at the end) in the same upstream read as the end of the head
+    for body in (b"\x00", b"\x00abc", b"ab\x00cd", b"abc\x00", b"\x89PNG\r\n\x1a\n\x00\x00\x00\rIHDR\x00\x00\x00\x01", b"\x00" * 5, b"a\x00" * 10):
+        head = b"HTTP/1.1 200 OK\r\nContent-Type: application/octet-stream\r\nContent-Length: %d" % len(body)
+        stream = head + b"\r\n\r\n" + body
+        hl = len(head) + 4
+        for cut in sorted(set([len(stream), hl + 1, hl + len(body) // 2, hl, hl - 1])):
+            ops = [[0, stream[:cut]]] + ([[0, stream[cut:]]] if cut < len(stream) else []) + [[1]]
+            yield ("proxy", [REQ, [], 0, ops, 0, env, [13]], "binary-body")
     # every split point of a short response
     stream = b"HTTP/1.1 201 CREATED\r\nA: 1\r\n\r\nxy"
     for k in range(1, len(stream)):
